@@ -127,7 +127,7 @@ func genWorkerScenario(rng *rand.Rand, profile, mode string) any {
 		sc.Drivers = append(sc.Drivers, ops)
 	}
 	sc.NH = h
-	if rng.Intn(3) == 0 {
+	if rng.Intn(3) == 0 && !gateTrace { // (WorkerL2, which gate traces are validated against, has no self-exiting instances)
 		for i := 1; i <= 3; i++ {
 			if rng.Intn(2) == 0 {
 				sc.Self = append(sc.Self, i)
